@@ -793,6 +793,20 @@ class Translator:
                 binary(name, name, params[1], other_vec(name, pd, point), ("vec", pd, point), [["pose", point]])
             else:
                 binary(name, name, params[1], other_vec(name, d, cname), ("vec", d, cname), [["pose", cname]])
+        # `p += q` : BasePose.__iadd__ (base_pose.py) — inherited, translated once per class and operand kind
+        brel = "pose/base_pose.py"
+        bfn = self.find_func(self.find_class(brel, "BasePose").body, "__iadd__", brel)
+        bparams = [a.arg for a in bfn.args.args]
+        for lm, oval, okind, pyargs in (
+            ("iadd", Vec(cname, [("arg", bparams[1], i) for i in range(d)], lean=bparams[1]), ("vec", d, cname), [["pose", cname]]),
+            ("iadd_boxplus", Vec(None, [("arg", bparams[1], i) for i in range(c)], lean=bparams[1]), ("vec", c, None), [["ndarray", c]]),
+        ):
+            ctx = Ctx(self, brel, {"self": selfv, bparams[1]: oval, "cls": cname}, "self")
+            ctx.run(bfn.body)
+            if ctx.raised or not isinstance(ctx.ret, Vec):
+                raise Untranslatable(brel, bfn.lineno, "__iadd__ does not return a pose")
+            reg(lm, 2, ctx.ret)
+            self.emit(group, "%s.%s" % (cname, lm), [("self", ("vec", d, cname)), (bparams[1], okind)], ctx.ret, brel, bfn, dict(kind="iadd", cls=cname, name="__iadd__", args=pyargs))
 
     def doc_shape(self, fn):
         doc = ast.get_docstring(fn) or ""
